@@ -1,7 +1,9 @@
 // C07 harness: replays Combine.tla's tuples of sources and bases through the
 // real driver (in-memory Fetcher, -base / -diff_base / -normalize) and compares
 // the -top rows and total of every common column with the specification's
-// entry-wise sum; also saves with -proto, reopens and compares again.
+// entry-wise sum (at functions, filefunctions and lines granularity: the
+// specification decides what an entry is, e.g. a function's start line is
+// not part of it); also saves with -proto, reopens and compares again.
 package main
 
 import (
@@ -30,6 +32,7 @@ type col struct {
 	U     string `json:"u"`
 	Rows  []row  `json:"rows"`
 	FRows []row  `json:"frows"` // the same report with entries (function, file)
+	LRows *[]row `json:"lrows"` // the same report with entries (function, file, line), named "fn file:line"; absent in cases recorded before the field existed
 	Total int64  `json:"total"`
 }
 type ccase struct {
@@ -41,6 +44,7 @@ type ccase struct {
 		Cols  []col  `json:"cols"`
 		Empty bool   `json:"empty"`
 		Cls   string `json:"cls"`
+		Moved bool   `json:"moved"` // the inputs hold one function (name, system name, file) under two start lines
 	} `json:"exp"`
 }
 
@@ -62,7 +66,7 @@ func main() {
 			run.Sample(json.RawMessage(raw))
 		}
 	})
-	run.Finish("cases = TLC-enumerated tuples of 1..3 sources and 0..1 bases (thorough: 3 sources + base) whose sample-type lists differ in unit (us/ms/s, B/kB), order or overlap, with zeros in a column next to non-zero values, x {plain, -base, -diff_base} x -normalize for p - p; every common column is rendered with -top -unit=<finest unit> and compared with the entry-wise sum the specification computes, then saved with -proto, reopened and compared again; non-trivial = case with more than one profile whose units, order or overlap differ, or with a base, distinct by (type lists, mode, expected rows)")
+	run.Finish("cases = TLC-enumerated tuples of 1..3 sources and 0..1 bases (thorough: 3 sources + base) whose sample-type lists differ in unit (us/ms/s, B/kB), order or overlap, with zeros in a column next to non-zero values, x {plain, -base, -diff_base} x -normalize for p - p, and tuples in which one function (name, system name, file) has different start lines across the inputs or within one input (a function that moved between two builds: one entry at functions/filefunctions granularity, told apart by line at lines granularity); every common column is rendered with -top -unit=<finest unit> at functions, filefunctions and lines granularity and compared with the entry-wise sum the specification computes, then saved with -proto, reopened and compared again; non-trivial = case with more than one profile whose units, order or overlap differ, or with a base, distinct by (type lists, mode, expected rows)")
 }
 
 func rowsText(rs []row) string {
@@ -102,6 +106,9 @@ func sig(c *ccase, what string) string {
 	n := ""
 	if c.Norm {
 		n = ",normalize"
+	}
+	if c.Exp.Moved {
+		n += ",moved-function"
 	}
 	return fmt.Sprintf("%s:%s:%s%s", what, c.Mode, kind, n)
 }
@@ -184,6 +191,18 @@ func check(raw json.RawMessage, c *ccase) {
 			run.Violate("top", sig(c, "error-filefunctions"), fmt.Sprintf("column %s: %v", k.T, err), raw, conc)
 		} else if want := rowsText(k.FRows); gotF != want {
 			run.Violate("top", sig(c, "rows-filefunctions"), fmt.Sprintf("column %s (%s) at filefunctions granularity, got:\n%s\nwant:\n%s", k.T, k.U, gotF, want), raw, conc)
+		}
+		// the same with (function, file, line) entries: here the line, not the function's start line, tells entries apart
+		if k.LRows == nil {
+			continue
+		}
+		gran = "-lines"
+		gotL, _, _, err := runTop(fetch, srcNames, flags, k)
+		gran = "-functions"
+		if err != nil {
+			run.Violate("top", sig(c, "error-lines"), fmt.Sprintf("column %s: %v", k.T, err), raw, conc)
+		} else if want := rowsText(*k.LRows); gotL != want {
+			run.Violate("top", sig(c, "rows-lines"), fmt.Sprintf("column %s (%s) at lines granularity, got:\n%s\nwant:\n%s", k.T, k.U, gotL, want), raw, conc)
 		}
 	}
 	// save with -proto, reopen: same report
